@@ -157,6 +157,42 @@ fn adjust_pointers(
         .collect()
 }
 
+fn adjust_cstrings(
+    map: &HashMap<String, Vec<usize>>,
+    address: usize,
+    count: usize,
+    subtract: bool,
+) -> HashMap<String, Vec<usize>> {
+    map.iter()
+        .map(|(text, addresses)| {
+            let new_addresses = addresses
+                .iter()
+                .map(|addr| adjust_pointer(*addr, address, count, subtract))
+                .collect();
+            (text.clone(), new_addresses)
+        })
+        .collect()
+}
+
+fn filter_cstrings(
+    map: &HashMap<String, Vec<usize>>,
+    address: usize,
+    count: usize,
+) -> HashMap<String, Vec<usize>> {
+    let range = address..(address + count);
+    map.iter()
+        .map(|(text, addresses)| {
+            let kept: Vec<usize> = addresses
+                .iter()
+                .filter(|addr| !range.contains(addr))
+                .copied()
+                .collect();
+            (text.clone(), kept)
+        })
+        .filter(|(_, addresses)| !addresses.is_empty())
+        .collect()
+}
+
 impl BinArchive {
     pub fn new(endian: Endian) -> Self {
         BinArchive {
@@ -623,9 +659,11 @@ impl BinArchive {
         let new_text = adjust_text(&self.text, address, amount_in_bytes, false);
         let new_labels = adjust_labels(&self.labels, address, amount_in_bytes, false, ge);
         let new_pointers = adjust_pointers(&self.pointers, address, amount_in_bytes, false, ge);
+        let new_cstrings = adjust_cstrings(&self.cstrings, address, amount_in_bytes, false);
         self.text = new_text;
         self.labels = new_labels;
         self.pointers = new_pointers;
+        self.cstrings = new_cstrings;
         Ok(())
     }
 
@@ -640,9 +678,12 @@ impl BinArchive {
         let new_text = adjust_text(&filtered_text, address, amount_in_bytes, true);
         let new_labels = adjust_labels(&filtered_labels, address, amount_in_bytes, true, ge);
         let new_pointers = adjust_pointers(&filtered_pointers, address, amount_in_bytes, true, ge);
+        let filtered_cstrings = filter_cstrings(&self.cstrings, address, amount_in_bytes);
+        let new_cstrings = adjust_cstrings(&filtered_cstrings, address, amount_in_bytes, true);
         self.text = new_text;
         self.labels = new_labels;
         self.pointers = new_pointers;
+        self.cstrings = new_cstrings;
         Ok(())
     }
 
